@@ -427,6 +427,23 @@ def main(argv=None):
                 except Exception:  # noqa
                     pass
     m = _merge(parts)
+    # ---- second engine (thorough tier, modules that ask for it): coverage-guided fuzzing of the same property
+    second = None
+    ath = getattr(mod, "ATHERIS", None)
+    if ath and tier == "thorough" and not m["harness_error"] and not FAILFAST:
+        from . import fuzz_atheris
+        outroot_ = Path(os.environ["VP_OUT"]) if os.environ.get("VP_OUT") else VERIF
+        adir = Path(tempfile.mkdtemp(prefix="vp_ath_out_", dir="/dev/shm" if os.path.isdir("/dev/shm") else None))
+        try:
+            second = fuzz_atheris.run(mod_id, adir, ath.get("runs", 200000), ath.get("seconds", 240), seed)
+            if second.get("finding"):
+                src = Path(second["finding"]["replay"])
+                obj = json.loads(src.read_text())
+                kind = obj["kind"]
+                if kind not in m["failures"]:
+                    m["failures"][kind] = {"case": obj["case"], "msg": obj["msg"] + " [found by the atheris engine]", "shard": "atheris"}
+        finally:
+            shutil.rmtree(adir, ignore_errors=True)
     wall = time.time() - t0
 
     # ---- replays for violations
@@ -467,6 +484,7 @@ def main(argv=None):
             "known_findings_examples": {k: v["example"] for k, v in m["known_seen"].items()},
             "budget_exhausted": m["budget_exhausted"],
             "violation_kinds": sorted(m["failures"]),
+            "second_engine": second,
         },
         "assumptions": list(getattr(mod, "ASSUMPTIONS", [])),
         "wall_s": round(wall, 2),
